@@ -86,6 +86,9 @@ def check_tables(m, viol, desc, after):
     return not bad
 
 
+import pandas as pd
+
+
 def rebuild(m):
     """A fresh cell built ONLY from what the tables display."""
     import numpy as np
@@ -112,7 +115,12 @@ def rebuild(m):
                 if val == val and col in cell.nodes.columns:
                     cell.select(nodes=[r]).set(col, float(val))
         for i, s in zip(m.recordings.rec_index, m.recordings.state):
-            cell.select(nodes=[int(i)]).record(s)
+            try:
+                cell.select(nodes=[int(i)]).record(s)
+            except KeyError:
+                # a state recorded on a row that does not carry its channel (accepted when the recording view also held a
+                # row that does; the trace is NaN): a one-row view refuses it, so the row is written to the table directly
+                cell.recordings = pd.concat([cell.recordings, pd.DataFrame({"rec_index": [int(i)], "state": [s]})], ignore_index=True)
         for key, inds in m.external_inds.items():
             for j, i in enumerate(np.asarray(inds)):
                 if key == "i":
@@ -361,7 +369,12 @@ def run(ctx):
                     groups = [g for g in groups if g]
                     if groups:
                         got.append((list(p)[0], sorted(groups)))
-                if sorted(got) != sorted(want):
+                # how the surviving groups are bundled into entries of `trainable_params` is not part of the meaning (a
+                # trainable that is partly in view is split into its untouched and its shrunk groups): compare the groups
+                flat = lambda es: sorted((k_, tuple(g_)) for k_, gs_ in es for g_ in gs_)
+                nvals_ok = all(len(np.asarray(list(p_.values())[0]).reshape(-1)) == len(np.asarray(i_).reshape(len(np.asarray(i_)), -1))
+                               for i_, p_ in zip(cell.indices_set_by_trainables, cell.trainable_params))
+                if flat(got) != flat(want) or not nvals_ok:
                     viol.append({"kind": "delete_trainables through a view did not remove exactly the trainables of the view",
                                  "rows_in_view": sorted(inview), "expected": sorted(want), "got": sorted(got),
                                  "parents": [int(x) for x in cell.comb_parents], "counts": [int(x) for x in cell.ncomp_per_branch]})
@@ -473,7 +486,7 @@ def run(ctx):
             exts_real = sorted(int(i) for i in np.asarray(cell.external_inds.get("i", [])).reshape(-1))
             clamps_real = sorted(set(int(i) for i in np.asarray(cell.external_inds.get("v", [])).reshape(-1)))
             groups_real = [sorted(int(i) for i in cell.groups[g]) for g in model["groups"] if g in cell.groups]
-            trains_real = sorted(sorted(sorted(set(int(i) for i in g if int(i) >= 0)) for g in np.asarray(inds).tolist()) for inds in cell.indices_set_by_trainables)
+            trains_real = sorted(sorted(set(int(i) for i in g if int(i) >= 0)) for inds in cell.indices_set_by_trainables for g in np.asarray(inds).tolist())
             real_state = [len(nd), chan_real, col_real, recs_real, exts_real, clamps_real, groups_real, trains_real]
             ops = "[" + "; ".join(model["ops"]) + "]"
             expr = (f"let ow := fun k => nth k {OWNS} [] in let s := run ow {len(channels())} (init {n0}) {ops} in "
@@ -498,6 +511,16 @@ def run(ctx):
                 params = cell.get_parameters()
                 out = np.asarray(jx.integrate(cell, params, **kw))
                 ref_cell = rebuild(cell)
+                # a trainable overrides the table on the rows it controls (a shared one starts at the MEAN of its rows):
+                # the reference gets the same values written into its table
+                for inds_, p_ in zip(cell.indices_set_by_trainables, params):
+                    key_ = list(p_)[0]
+                    if key_ not in ref_cell.nodes.columns:
+                        continue
+                    for g_, val_ in zip(np.asarray(inds_).tolist(), np.asarray(p_[key_]).reshape(-1).tolist()):
+                        rows_ = sorted(set(int(r_) for r_ in g_ if 0 <= int(r_) < len(ref_cell.nodes)))
+                        if rows_:
+                            ref_cell.select(nodes=rows_).set(key_, float(val_))
                 ref = np.asarray(jx.integrate(ref_cell, **kw))
             evals += 1
             if out.shape != ref.shape or not np.allclose(out, ref, rtol=0, atol=1e-9, equal_nan=True):
@@ -525,7 +548,7 @@ def run(ctx):
             flat.append(t)
             nrows_m, chan_m, col_m, recs_m, exts_m, clamps_m, groups_m, trains_m = flat
             mstate = [nrows_m, [sorted(x) for x in chan_m], [sorted(x) for x in col_m], sorted(set(recs_m)), sorted(exts_m), sorted(set(clamps_m)),
-                      [sorted(set(g)) for g in groups_m], sorted(sorted(sorted(g) for g in tr) for tr in trains_m)]
+                      [sorted(set(g)) for g in groups_m], sorted(sorted(g) for tr in trains_m for g in tr)]
             nmodel += 1
             names = ["number of rows", "channel flags", "parameter/state columns", "recorded rows", "stimulated rows", "clamped rows", "groups", "trainables"]
             for nm, a, b in zip(names, real, mstate):
